@@ -106,6 +106,8 @@ fn main() {
         "run" => run_one(&args),
         "gen" => gen_one(&args),
         "selftest-model" => selftest_model(),
+        #[cfg(feature = "pm")]
+        "leakprobe" => leakprobe(&args),
         "serve" => serve::serve(),
         #[cfg(feature = "pm")]
         "crash-child" => {
@@ -247,6 +249,15 @@ fn batch(args: &Args) -> i32 {
                         }
                     }
                     seeds_done.fetch_add(1, Ordering::Relaxed);
+                    // the persistent tree's batch insertion allocates gigabytes for a write far to the right of a deep tree; glibc
+                    // keeps the freed pages in the thread's arena, so hand them back before the next seed
+                    trim_heap();
+                    if std::env::var("ZKSIM_RSS").is_ok() {
+                        // development aid: resident set size after each seed
+                        let st = std::fs::read_to_string("/proc/self/statm").unwrap_or_default();
+                        let mb = st.split_whitespace().nth(1).and_then(|x| x.parse::<u64>().ok()).unwrap_or(0) * 4096 / (1 << 20);
+                        eprintln!("rss after seed index {i} ({run_seed}): {mb} MB");
+                    }
                     if local.violations.len() as u64 >= max_viol || !local.harness_errors.is_empty() {
                         stop.store(true, Ordering::Relaxed);
                     }
@@ -929,3 +940,69 @@ fn selftest_model() -> i32 {
     println!("model selftest ok: {checked} trees");
     0
 }
+
+
+/// Development aid: creates and drops persistent-tree instances in a loop and prints the resident set size.
+#[cfg(feature = "pm")]
+fn leakprobe(args: &Args) -> i32 {
+    use rln::pm_tree_adapter::{PmTree, PmtreeConfig};
+    use std::str::FromStr;
+    use zerokit_utils::ZerokitMerkleTree;
+    let depth = args.u64("depth", 20) as usize;
+    let n = args.u64("n", 100);
+    let mode = args.u64("mode", 0);
+    let rss = || -> u64 {
+        let s = std::fs::read_to_string("/proc/self/statm").unwrap_or_default();
+        s.split_whitespace().nth(1).and_then(|x| x.parse::<u64>().ok()).unwrap_or(0) * 4096 / (1 << 20)
+    };
+    for k in 0..n {
+        let cfg = PmtreeConfig::from_str("{}").ok();
+        let mut t = match cfg {
+            Some(c) => PmTree::new(depth, ark_bn254::Fr::from(0u64), c).expect("new"),
+            None => PmTree::default(depth).expect("default"),
+        };
+        if mode >= 1 {
+            for i in 0..5usize {
+                t.set(i * 7 + (k as usize % 3), ark_bn254::Fr::from(5u64 + i as u64)).expect("set");
+            }
+        }
+        if mode >= 2 {
+            t.set_range(100, (0..30u32).map(|x| ark_bn254::Fr::from(x as u64))).expect("range");
+        }
+        if mode >= 3 {
+            let cap = 1usize << depth;
+            t.set(cap - 1, ark_bn254::Fr::from(9u64)).expect("set last");
+            t.set(cap / 2, ark_bn254::Fr::from(9u64)).expect("set mid");
+        }
+        if mode >= 4 {
+            t.set_range(16000, (0..40u32).map(|x| ark_bn254::Fr::from(x as u64))).expect("range 16000");
+        }
+        if mode >= 5 {
+            let _ = t.override_range(3, (0..5u32).map(|x| ark_bn254::Fr::from(x as u64)), vec![3usize, 4].into_iter());
+            let _ = t.get_empty_leaves_indices();
+        }
+        if mode >= 6 {
+            t.set(900_000, ark_bn254::Fr::from(3u64)).expect("set high");
+            t.set_range(524_287, (0..1u32).map(|x| ark_bn254::Fr::from(7 + x as u64))).expect("range mid");
+        }
+        drop(t);
+        if k % 10 == 9 || mode >= 6 {
+            println!("iter {k}: rss {} MB", rss());
+        }
+    }
+    0
+}
+
+
+#[cfg(target_os = "linux")]
+fn trim_heap() {
+    extern "C" {
+        fn malloc_trim(pad: usize) -> i32;
+    }
+    unsafe {
+        malloc_trim(0);
+    }
+}
+
+#[cfg(not(target_os = "linux"))]
+fn trim_heap() {}
